@@ -31,6 +31,8 @@ func checkC09(c *Ctx) {
 	c.flagBitTables()
 	// what goes out has the length Len() says and the bytes the encoder counted (T1 length tables, B14)
 	c.codecLengthTables()
+	// the wills of the connections a closing server ends are published while the stores still exist
+	serverClose(c)
 }
 
 func isConstBool(v ssa.Value, want bool) bool {
